@@ -28,6 +28,11 @@ def gen_cases(rng, tier):
                     c["grout"]["conductivity"] = rng.choice([0.7, 1.0, 2.15])
                     c["borehole"]["buried_depth"] = rng.choice([0.5, 2.0, 4.0])
                     c["design"]["flow_rate"] = rng.choice([0.2, 0.5, 1.3])
+                    c["design"]["min_eft"] = rng.choice([5.0, 0.0, -1.1, -3.5])            # antifreeze mixtures run below 0 C
+                    c["design"]["max_eft"] = rng.choice([35.0, 30.0, 40.5])
+                    if p == "COAXIAL":
+                        c["pipe"]["conductivity_inner"] = rng.choice([0.4, 0.1, 0.25])
+                        c["pipe"]["conductivity_outer"] = rng.choice([0.4, 0.6, 1.5])
                     c["design"]["flow_type"] = rng.choice(["BOREHOLE", "SYSTEM"])
                     if mb is not None:
                         c["design"]["max_boreholes"] = mb
@@ -136,6 +141,9 @@ def judge(chk, c, o):
     if o["validate_errors"] != 0:
         chk.violation("input-file", c, {"validate_errors": o["validate_errors"], "stderr": o["validate_msg"], "null_values": o["nulls"]},
                       "the written input file validates against the tool's own schemas")
+        return 1
+    if o.get("written_vs_given"):
+        chk.violation("input-file", c, {"differences": o["written_vs_given"]}, "the written file holds the configuration given to the API (so that reading it back reconstructs the same configuration)")
         return 1
     if o["load_rc"] != 0 or o["same_bytes"] is None:
         chk.violation("input-file", c, {"load_rc": o["load_rc"]}, "the written file loads through the command-line loading path")
